@@ -43,7 +43,10 @@ const (
 type Fencer interface{ Fenced() bool }
 
 type Thread struct {
-	Name   string
+	Name string
+	// Prio orders the canonical enabled list (lower first, then by name): the
+	// default schedule runs lower-priority-number threads first.
+	Prio   int
 	goid   uint64
 	st     status
 	label  string
@@ -155,8 +158,11 @@ func goid() uint64 {
 }
 
 // Go starts a named model thread. Must be called from inside the bubble.
-func (s *Sched) Go(name string, fn func()) {
-	th := &Thread{Name: s.uniqueName(name), resume: make(chan struct{}, 1)}
+func (s *Sched) Go(name string, fn func()) { s.GoPrio(name, 5, fn) }
+
+// GoPrio is Go with an explicit position in the canonical order.
+func (s *Sched) GoPrio(name string, prio int, fn func()) {
+	th := &Thread{Name: s.uniqueName(name), Prio: prio, resume: make(chan struct{}, 1)}
 	s.mu.Lock()
 	s.threads = append(s.threads, th)
 	s.mu.Unlock()
@@ -203,7 +209,7 @@ func (s *Sched) self(label string) *Thread {
 	if th != nil {
 		return th
 	}
-	th = &Thread{Name: s.uniqueName("anon:" + label), goid: id, resume: make(chan struct{}, 1), anon: true}
+	th = &Thread{Name: s.uniqueName("anon:" + label), Prio: 5, goid: id, resume: make(chan struct{}, 1), anon: true}
 	s.mu.Lock()
 	s.byGoid[id] = th
 	s.threads = append(s.threads, th)
@@ -420,7 +426,12 @@ func (s *Sched) Run() {
 				enabled = append(enabled, th)
 			}
 		}
-		sort.Slice(enabled, func(i, j int) bool { return enabled[i].Name < enabled[j].Name })
+		sort.Slice(enabled, func(i, j int) bool {
+			if enabled[i].Prio != enabled[j].Prio {
+				return enabled[i].Prio < enabled[j].Prio
+			}
+			return enabled[i].Name < enabled[j].Name
+		})
 		runningEnabled := false
 		for i, th := range enabled {
 			if th == s.running {
